@@ -131,6 +131,29 @@ Qed.
 (* the eventfd counter never goes negative *)
 Definition cnt_ok (s : wstate) : Prop := 0 <= efd_cnt (w_sh s).
 
+Lemma mkA_eq : forall f f' E E' nU nU' nL nL' lU lU' lL lL' a a' b b' c c' d d' dU dU' dL dL' k k',
+  f = f' -> E = E' -> nU = nU' -> nL = nL' -> lU = lU' -> lL = lL' -> a = a' -> b = b' -> c = c' -> d = d' ->
+  dU = dU' -> dL = dL' -> k = k' ->
+  mkA f E nU nL lU lL a b c d dU dL k = mkA f' E' nU' nL' lU' lL' a' b' c' d' dU' dL' k'.
+Proof. intros; subst; reflexivity. Qed.
+
+Lemma astep_eq : forall v v1 v2, astep v v1 -> v1 = v2 -> astep v v2.
+Proof. intros v v1 v2 H E. subst. exact H. Qed.
+
+(* compute the fields of the view of an updated state *)
+Ltac vnorm :=
+  unfold n_p1, n_p2, n_p3, d_q, cls_of;
+  cbn [trigs w_sh con w_env w_gh set_gh set_sh set_con set_env set_trig set_trigs set_cpc sh_items sh_qlen sh_flag sh_efd
+       items qlen flag eff_edge edge efd_cnt itemsU itemsL lenU lenL].
+
+Ltac vfields Eth :=
+  unfold view; apply mkA_eq;
+  rewrite ?n_p1_set, ?n_p2_set, ?n_p3_set;
+  vnorm; rewrite ?Eth;
+  unfold w_p1, w_p2, w_p3; cbn [t_pc idle_trig];
+  rewrite ?zlen_app1;
+  first [lia | reflexivity | idtac].
+
 (* one scheduling point of a Trigger call *)
 Lemma trig_step_astep : forall s t c s1 o done,
   trig_step s t c = (s1, o, done) -> sane s1 -> cnt_ok s ->
@@ -141,40 +164,19 @@ Lemma trig_step_astep : forall s t c s1 o done,
 Proof.
   intros s t c s1 o done H [So Sf] Hc. unfold trig_step in H.
   destruct (get_trig (trigs s) t) as [p x] eqn:Eth. cbn [t_pc t_task] in H.
-  assert (Wth : forall w : trig -> Z, w (get_trig (trigs s) t) = w (mkTrig p x)) by (intro w; rewrite Eth; reflexivity).
   destruct p as [| |q|q| | |]; destruct c as [order| | |sp|v|k sc|k l];
     try (inv H; splits; [split; assumption|exact Hc|reflexivity|reflexivity|discriminate|reflexivity|apply A_nop]).
   - (* TLen *)
     inv H. splits; [split; assumption|exact Hc|reflexivity|reflexivity|discriminate| |].
     + intros t' Hne. cbn. apply get_put_other; congruence.
-    + replace (view (set_trig s t _)) with (view s); [apply A_nop|].
-      symmetry. unfold view. rewrite !n_p1_set, n_p2_set, n_p3_set, !Wth.
-      destruct (d_cls_con s (set_trig s t {| t_pc := TEnq (if lenU (w_sh s) >=? e_thr (w_env s) then QL else QU); t_task := x |}) eq_refl) as (A & B & C).
-      rewrite A, B, C. cbn [w_sh set_trig set_trigs]. unfold w_p1, w_p2, w_p3; cbn [t_pc].
-      destruct (lenU (w_sh s) >=? e_thr (w_env s)); f_equal; lia.
+    + eapply astep_eq; [apply A_nop|]. vfields Eth.
   - (* TEnq: link *)
-    inv H. splits; [split; assumption|exact Hc|reflexivity|reflexivity|discriminate| |].
+    inv H. sane_simpl So. sane_simpl Sf.
+    splits; [split; assumption|unfold cnt_ok; cbn; destruct q; exact Hc|reflexivity|reflexivity|discriminate| |].
     + intros t' Hne. cbn. apply get_put_other; congruence.
-    + unfold view. rewrite !n_p1_set, n_p2_set, n_p3_set.
-      cbn [trigs set_gh set_sh]. rewrite !Wth.
-      match goal with |- astep _ (mkA _ _ _ _ _ _ _ _ _ _ ?du ?dl ?k) =>
-        replace du with (d_q QU s) by reflexivity; replace dl with (d_q QL s) by reflexivity;
-        replace k with (cls_of s) by reflexivity end.
-      unfold n_p1, n_p2, n_p3. cbn [trigs set_gh set_sh w_sh set_trig set_trigs].
-      unfold w_p1, w_p2, w_p3; cbn [t_pc].
-      destruct q; cbn [sh_items items flag eff_edge edge efd_cnt itemsU itemsL lenU lenL].
-      * rewrite zlen_app1.
-        replace (tot (w_p1 QU) (trigs s) - 0 + 1) with (tot (w_p1 QU) (trigs s) + 1) by lia.
-        replace (tot (w_p1 QL) (trigs s) - 0 + 0) with (tot (w_p1 QL) (trigs s)) by lia.
-        replace (tot w_p2 (trigs s) - 0 + 0) with (tot w_p2 (trigs s)) by lia.
-        replace (tot w_p3 (trigs s) - 0 + 0) with (tot w_p3 (trigs s)) by lia.
-        apply A_linkU.
-      * rewrite zlen_app1.
-        replace (tot (w_p1 QL) (trigs s) - 0 + 1) with (tot (w_p1 QL) (trigs s) + 1) by lia.
-        replace (tot (w_p1 QU) (trigs s) - 0 + 0) with (tot (w_p1 QU) (trigs s)) by lia.
-        replace (tot w_p2 (trigs s) - 0 + 0) with (tot w_p2 (trigs s)) by lia.
-        replace (tot w_p3 (trigs s) - 0 + 0) with (tot w_p3 (trigs s)) by lia.
-        apply A_linkL.
+    + destruct q.
+      * eapply astep_eq; [unfold view; apply A_linkU|]. vfields Eth.
+      * eapply astep_eq; [unfold view; apply A_linkL|]. vfields Eth.
   - (* TCnt: count *)
     destruct (add_len s q 1) as [s2 v] eqn:Ea. inv H.
     cbn [set_trig set_trigs w_gh] in So, Sf.
@@ -184,103 +186,208 @@ Proof.
     + cbn. exact Econ.
     + cbn. exact Eenv.
     + intros t' Hne. cbn. rewrite Etr. apply get_put_other; congruence.
-    + unfold view. rewrite !n_p1_set, n_p2_set, n_p3_set. rewrite Etr, !Wth.
-      destruct (d_cls_con s (set_trig s2 t {| t_pc := TCas; t_task := x |}) Econ) as (A & B & C).
-      rewrite A, B, C.
-      rewrite (n_p1_trigs s s2 QU Etr), (n_p1_trigs s s2 QL Etr), (n_p2_trigs s s2 Etr), (n_p3_trigs s s2 Etr).
-      cbn [w_sh set_trig set_trigs]. rewrite Esh.
-      unfold w_p1, w_p2, w_p3; cbn [t_pc].
-      destruct q; cbn [sh_qlen qlen flag eff_edge edge efd_cnt itemsU itemsL lenU lenL].
-      * replace (n_p1 QU s - 1 + 0) with (n_p1 QU s - 1) by lia.
-        replace (n_p1 QL s - 0 + 0) with (n_p1 QL s) by lia.
-        replace (n_p2 s - 0 + 1) with (n_p2 s + 1) by lia.
-        replace (n_p3 s - 0 + 0) with (n_p3 s) by lia.
-        apply A_countU.
-      * replace (n_p1 QL s - 1 + 0) with (n_p1 QL s - 1) by lia.
-        replace (n_p1 QU s - 0 + 0) with (n_p1 QU s) by lia.
-        replace (n_p2 s - 0 + 1) with (n_p2 s + 1) by lia.
-        replace (n_p3 s - 0 + 0) with (n_p3 s) by lia.
-        apply A_countL.
+    + destruct q.
+      * eapply astep_eq; [unfold view; apply A_countU|].
+        unfold view; apply mkA_eq; rewrite ?n_p1_set, ?n_p2_set, ?n_p3_set; vnorm; rewrite ?Etr, ?Esh, ?Econ, ?Eth;
+          unfold w_p1, w_p2, w_p3; cbn [t_pc sh_qlen qlen flag eff_edge edge efd_cnt itemsU itemsL lenU lenL];
+          first [lia | reflexivity | idtac].
+      * eapply astep_eq; [unfold view; apply A_countL|].
+        unfold view; apply mkA_eq; rewrite ?n_p1_set, ?n_p2_set, ?n_p3_set; vnorm; rewrite ?Etr, ?Esh, ?Econ, ?Eth;
+          unfold w_p1, w_p2, w_p3; cbn [t_pc sh_qlen qlen flag eff_edge edge efd_cnt itemsU itemsL lenU lenL];
+          first [lia | reflexivity | idtac].
   - (* TCas *)
     destruct (flag (w_sh s) =? 0) eqn:Ef; inv H.
     + splits; [split; assumption|exact Hc|reflexivity|reflexivity|discriminate| |].
       * intros t' Hne. cbn. apply get_put_other; congruence.
-      * unfold view. rewrite !n_p1_set, n_p2_set, n_p3_set.
-        cbn [trigs set_sh]. rewrite !Wth.
-        match goal with |- astep _ (mkA _ _ _ _ _ _ _ _ _ _ ?du ?dl ?k) =>
-          replace du with (d_q QU s) by reflexivity; replace dl with (d_q QL s) by reflexivity;
-          replace k with (cls_of s) by reflexivity end.
-        unfold n_p1, n_p2, n_p3. cbn [trigs set_sh w_sh set_trig set_trigs].
-        unfold w_p1, w_p2, w_p3; cbn [t_pc].
-        cbn [sh_flag flag eff_edge edge efd_cnt itemsU itemsL lenU lenL].
-        replace (flag (w_sh s)) with 0 by lia.
-        replace (tot (w_p1 QU) (trigs s) - 0 + 0) with (tot (w_p1 QU) (trigs s)) by lia.
-        replace (tot (w_p1 QL) (trigs s) - 0 + 0) with (tot (w_p1 QL) (trigs s)) by lia.
-        replace (tot w_p2 (trigs s) - 1 + 0) with (tot w_p2 (trigs s) - 1) by lia.
-        replace (tot w_p3 (trigs s) - 0 + 1) with (tot w_p3 (trigs s) + 1) by lia.
-        apply A_caswin.
-    + unfold ret_trig in *. cbn [set_trig set_trigs set_gh w_gh gh_ret g_ovf g_fault] in So, Sf.
+      * assert (F0 : flag (w_sh s) = 0) by lia.
+        eapply astep_eq; [unfold view; rewrite F0; apply A_caswin|]. vfields Eth.
+    + sane_simpl So. sane_simpl Sf.
       splits; [split; assumption|exact Hc|reflexivity|reflexivity| | |].
-      * intros _. cbn. apply get_put_same.
+      * intros _. unfold ret_trig. cbn [trigs set_trig set_trigs set_gh set_sh]. rewrite get_put_same. reflexivity.
       * intros t' Hne. cbn. apply get_put_other; congruence.
-      * unfold view. rewrite !n_p1_set, n_p2_set, n_p3_set.
-        cbn [trigs set_gh]. rewrite !Wth.
-        match goal with |- astep _ (mkA _ _ _ _ _ _ _ _ _ _ ?du ?dl ?k) =>
-          replace du with (d_q QU s) by reflexivity; replace dl with (d_q QL s) by reflexivity;
-          replace k with (cls_of s) by reflexivity end.
-        unfold n_p1, n_p2, n_p3. cbn [trigs set_gh w_sh set_trig set_trigs].
-        unfold w_p1, w_p2, w_p3; cbn [t_pc idle_trig].
-        replace (tot (w_p1 QU) (trigs s) - 0 + 0) with (tot (w_p1 QU) (trigs s)) by lia.
-        replace (tot (w_p1 QL) (trigs s) - 0 + 0) with (tot (w_p1 QL) (trigs s)) by lia.
-        replace (tot w_p2 (trigs s) - 1 + 0) with (tot w_p2 (trigs s) - 1) by lia.
-        replace (tot w_p3 (trigs s) - 0 + 0) with (tot w_p3 (trigs s)) by lia.
-        apply A_caslose. lia.
+      * eapply astep_eq; [unfold view; apply A_caslose; lia|]. unfold ret_trig. vfields Eth.
   - (* TWr, step *)
     destruct (efd_write (w_sh s)) as [x1 r] eqn:Ew.
     destruct (efd_write_res (w_sh s)) as [R|[R R']]; rewrite Ew in *; cbn [fst snd] in *; subst r.
-    + inv H. unfold ret_trig in *. cbn [set_trig set_trigs set_gh set_sh w_gh gh_ret g_ovf g_fault] in So, Sf.
+    + inv H. sane_simpl So. sane_simpl Sf.
       destruct (eff_edge_write _ _ Ew Hc) as (E1 & E2 & E3 & E4 & E5 & E6 & E7).
       splits; [split; assumption|exact E7|reflexivity|reflexivity| | |].
-      * intros _. cbn. apply get_put_same.
+      * intros _. unfold ret_trig. cbn [trigs set_trig set_trigs set_gh set_sh]. rewrite get_put_same. reflexivity.
       * intros t' Hne. cbn. apply get_put_other; congruence.
-      * unfold view. rewrite !n_p1_set, n_p2_set, n_p3_set.
-        cbn [trigs set_gh set_sh]. rewrite !Wth.
-        match goal with |- astep _ (mkA _ _ _ _ _ _ _ _ _ _ ?du ?dl ?k) =>
-          replace du with (d_q QU s) by reflexivity; replace dl with (d_q QL s) by reflexivity;
-          replace k with (cls_of s) by reflexivity end.
-        unfold n_p1, n_p2, n_p3. cbn [trigs set_gh set_sh w_sh set_trig set_trigs].
-        unfold w_p1, w_p2, w_p3; cbn [t_pc idle_trig].
-        rewrite E1, E2, E3, E4, E5, E6.
-        replace (tot (w_p1 QU) (trigs s) - 0 + 0) with (tot (w_p1 QU) (trigs s)) by lia.
-        replace (tot (w_p1 QL) (trigs s) - 0 + 0) with (tot (w_p1 QL) (trigs s)) by lia.
-        replace (tot w_p2 (trigs s) - 0 + 0) with (tot w_p2 (trigs s)) by lia.
-        replace (tot w_p3 (trigs s) - 1 + 0) with (tot w_p3 (trigs s) - 1) by lia.
-        apply A_writeok.
+      * eapply astep_eq; [unfold view; apply A_writeok|]. unfold ret_trig.
+        unfold view; apply mkA_eq; rewrite ?n_p1_set, ?n_p2_set, ?n_p3_set;
+          unfold n_p1, n_p2, n_p3, d_q, cls_of;
+          cbn [trigs w_sh con w_env w_gh set_gh set_sh set_con set_env set_trig set_trigs set_cpc];
+          rewrite ?Eth, ?E1, ?E2, ?E3, ?E4, ?E5, ?E6;
+          unfold w_p1, w_p2, w_p3; cbn [t_pc idle_trig]; first [lia | reflexivity | idtac].
     + inv H. splits; [split; assumption|exact Hc|reflexivity|reflexivity|discriminate| |].
       * intros t' Hne. cbn. apply get_put_other; congruence.
-      * replace (view (set_trig s t _)) with (view s); [apply A_nop|].
-        symmetry. unfold view. rewrite !n_p1_set, n_p2_set, n_p3_set, !Wth.
-        destruct (d_cls_con s (set_trig s t {| t_pc := TRd; t_task := x |}) eq_refl) as (A & B & C).
-        rewrite A, B, C. cbn [w_sh set_trig set_trigs]. unfold w_p1, w_p2, w_p3; cbn [t_pc]. f_equal; lia.
+      * eapply astep_eq; [apply A_nop|]. vfields Eth.
   - (* TWr, fault: excluded *)
-    inv H. unfold ret_trig in Sf. cbn in Sf. discriminate.
+    inv H. sane_simpl Sf. discriminate.
   - (* TRd *)
     destruct (efd_read (w_sh s)) as [x1 v] eqn:Er. inv H.
     destruct (efd_read_frame _ _ _ Er) as (E2 & E3 & E4 & E5 & E6 & E1 & E7).
     splits; [split; assumption|exact (E7 Hc)|reflexivity|reflexivity|discriminate| |].
     + intros t' Hne. cbn. apply get_put_other; congruence.
-    + unfold view. rewrite !n_p1_set, n_p2_set, n_p3_set.
-      cbn [trigs set_sh]. rewrite !Wth.
-      match goal with |- astep _ (mkA _ _ _ _ _ _ _ _ _ _ ?du ?dl ?k) =>
-        replace du with (d_q QU s) by reflexivity; replace dl with (d_q QL s) by reflexivity;
-        replace k with (cls_of s) by reflexivity end.
-      unfold n_p1, n_p2, n_p3. cbn [trigs set_sh w_sh set_trig set_trigs].
-      unfold w_p1, w_p2, w_p3; cbn [t_pc].
-      rewrite E2, E3, E4, E5, E6.
-      replace (tot (w_p1 QU) (trigs s) - 0 + 0) with (tot (w_p1 QU) (trigs s)) by lia.
-      replace (tot (w_p1 QL) (trigs s) - 0 + 0) with (tot (w_p1 QL) (trigs s)) by lia.
-      replace (tot w_p2 (trigs s) - 0 + 0) with (tot w_p2 (trigs s)) by lia.
-      replace (tot w_p3 (trigs s) - 1 + 1) with (tot w_p3 (trigs s)) by lia.
-      apply A_drop; [|exact E1].
-      left. pose proof (tot_ge w_p3 (trigs s) t nn_p3 z_p3) as G. rewrite Wth in G. unfold w_p3 in G at 1; cbn in G. lia.
+    + eapply astep_eq; [unfold view; eapply (A_drop _ _ (eff_edge x1)); [|exact E1]|].
+      * left. pose proof (tot_ge w_p3 (trigs s) t nn_p3 z_p3) as G. rewrite Eth in G.
+        unfold w_p3 in G at 1; cbn in G. unfold n_p3. lia.
+      * unfold view; apply mkA_eq; rewrite ?n_p1_set, ?n_p2_set, ?n_p3_set;
+          unfold n_p1, n_p2, n_p3, d_q, cls_of;
+          cbn [trigs w_sh con w_env w_gh set_gh set_sh set_con set_env set_trig set_trigs set_cpc];
+          rewrite ?Eth, ?E2, ?E3, ?E4, ?E5, ?E6;
+          unfold w_p1, w_p2, w_p3; cbn [t_pc idle_trig]; first [lia | reflexivity | idtac].
+Qed.
+
+(* ---- the event loop's own steps ---- *)
+Lemma has_efd_app : forall a b, has_efd (a ++ b) = has_efd a || has_efd b.
+Proof. intros. unfold has_efd. apply existsb_app. Qed.
+
+Lemma has_efd_io : forall l, has_efd (io_evs l) = false.
+Proof. induction l as [|e r IH]; [reflexivity|]. cbn. exact IH. Qed.
+
+Lemma has_efd_arrange : forall order pend eff, has_efd (arrange order pend eff) = eff.
+Proof.
+  intros order pend eff. unfold arrange. destruct eff; [|apply has_efd_io].
+  destruct (efd_pos order) as [n|].
+  - rewrite has_efd_app. cbn. apply orb_true_r.
+  - rewrite has_efd_app. cbn. apply orb_true_r.
+Qed.
+
+Lemma loop_ok_intro : forall s, loop_idle s -> c_chores (con s) = false -> loop_ok s.
+Proof. intros s H1 H2. split; [intros _; exact H1|]. unfold chores_ok. rewrite H2. discriminate. Qed.
+
+Ltac vnormc :=
+  vnorm;
+  cbn [c_pc c_msec c_todo c_evs c_chores c_phase c_low c_held
+       c_set_pc c_set_msec c_set_todo c_set_evs c_set_chores c_set_phase c_set_low c_set_held].
+
+(* rewrite the source view using the loop's program counter *)
+Ltac src Epc :=
+  let V := fresh "Vs" in
+  match goal with |- astep (view ?s) _ =>
+    assert (V : view s = mkA (flag (w_sh s)) (eff_edge (w_sh s)) (zlen (itemsU (w_sh s))) (zlen (itemsL (w_sh s)))
+                             (lenU (w_sh s)) (lenL (w_sh s)) (n_p1 QU s) (n_p1 QL s) (n_p2 s) (n_p3 s)
+                             (d_q QU s) (d_q QL s) (cls_of s)) by reflexivity;
+    unfold d_q, cls_of in V; rewrite Epc in V; cbv iota beta in V; rewrite V; clear V
+  end.
+
+Ltac tgt := unfold view; apply mkA_eq; vnormc; rewrite ?zlen_cons; first [lia | reflexivity | idtac].
+
+Ltac tgtE Epc := unfold view; apply mkA_eq; vnormc; rewrite ?Epc, ?zlen_cons; first [lia | reflexivity | idtac].
+
+Lemma cons_step_astep : forall s c s1 o,
+  cons_step s c = (s1, o) -> sane s1 -> cnt_ok s -> loop_ok s ->
+  sane s /\ cnt_ok s1 /\ loop_ok s1 /\ astep (view s) (view s1).
+Proof.
+  intros s c s1 o H [So Sf] Hc [Li Lc]. unfold cons_step in H.
+  destruct (c_pc (con s)) as [ |q|q|q| | | | | | | ] eqn:Epc.
+  all: try (assert (Hidle : loop_idle s) by (apply Li; discriminate)).
+  all: try (assert (Hch : c_chores (con s) = false)
+             by (destruct (c_chores (con s)) eqn:X; [destruct (Lc X); congruence|reflexivity])).
+  all: destruct c as [order| | |sp|v|k sc|k l];
+    try (inv H; splits; [split; assumption|exact Hc
+                        |first [apply loop_ok_intro; [exact Hidle|exact Hch] | split; assumption]|apply A_nop]).
+  - (* CWait: epoll_wait *)
+    set (evs := arrange order (io_pend (w_env s)) (eff_edge (w_sh s))) in *.
+    set (s0 := set_env (set_sh s (sh_efd (w_sh s) (efd_cnt (w_sh s)) false)) (e_set_io (w_env s) [])) in *.
+    assert (HE : has_efd evs = eff_edge (w_sh s)) by apply has_efd_arrange.
+    destruct evs as [|e r] eqn:Eevs.
+    + inv H. cbn in HE.
+      splits; [split; assumption|exact Hc| |].
+      * apply loop_ok_intro; [exact Hidle|exact Hch].
+      * src Epc. eapply astep_eq; [apply A_wait|]. rewrite <- HE. tgtE Epc.
+    + set (s2 := set_con s0 (c_set_phase (c_set_msec (con s) 0) PhEvents)) in *.
+      assert (Hi2 : loop_idle s2) by exact Hidle.
+      pose proof (run_evs_frame (e :: r) s2 Hi2) as R. cbn zeta in R.
+      destruct (run_evs (e :: r) s2) as [s3 o3] eqn:Er. inv H. cbn [fst] in R.
+      destruct R as (L0 & A & B & C & D & E & F & G & I & J1 & J2 & K).
+      splits.
+      * split; [change (g_ovf (w_gh s2) = false); rewrite <- C; exact So|change (g_fault (w_gh s2) = false); rewrite <- D; exact Sf].
+      * unfold cnt_ok. rewrite A. exact Hc.
+      * exact L0.
+      * src Epc. eapply astep_eq; [apply A_wait|].
+        unfold view; apply mkA_eq; rewrite ?A, ?E, ?F, ?G, ?I, ?J1, ?J2, ?K; try reflexivity.
+        unfold s2, s0; cbn [con set_con c_chores c_set_phase c_set_msec]. rewrite Hch, HE. reflexivity.
+  - (* CDeq: unlink or empty *)
+    destruct (items q (w_sh s)) as [|x r] eqn:Eit; inv H.
+    + splits; [split; assumption|exact Hc|apply loop_ok_intro; [exact Hidle|exact Hch]|].
+      src Epc. eapply astep_eq; [apply A_nop|]. tgt.
+    + splits; [split; assumption| |apply loop_ok_intro; [exact Hidle|exact Hch]|].
+      * unfold cnt_ok. cbn. destruct q; exact Hc.
+      * src Epc. destruct q; cbn [items] in Eit.
+        -- eapply astep_eq; [apply A_unlinkU|]. unfold view; apply mkA_eq; vnormc; rewrite ?Eit, ?zlen_cons;
+             first [lia | reflexivity | idtac].
+        -- eapply astep_eq; [apply A_unlinkL|]. unfold view; apply mkA_eq; vnormc; rewrite ?Eit, ?zlen_cons;
+             first [lia | reflexivity | idtac].
+  - (* CEmp, tau: Dequeue returns nil *)
+    assert (G : forall s', (s' = set_con s (c_set_pc (c_set_low (con s) 0) (CDeq QL)) \/
+                            s' = set_con s (c_set_pc (c_set_low (con s) 0) CStore) \/ s' = set_cpc s CStore) ->
+                loop_ok s' /\ astep (view s) (view s')).
+    { intros s' Hs'. split.
+      - apply loop_ok_intro; destruct Hs' as [X|[X|X]]; subst s'; try exact Hidle; exact Hch.
+      - src Epc. eapply astep_eq; [apply A_nop|]. destruct Hs' as [X|[X|X]]; subst s'; tgt. }
+    destruct q.
+    + destruct (0 <? e_max (w_env s)); inv H;
+        (splits; [split; assumption|exact Hc| |]; [eapply G|eapply G]; auto).
+    + inv H. splits; [split; assumption|exact Hc| |]; [eapply G|eapply G]; auto.
+  - (* CDec: decount, then the task runs *)
+    destruct (add_len s q (-1)) as [s2 v] eqn:Ea.
+    assert (Hi2 : loop_idle s2).
+    { unfold add_len in Ea. inv Ea. exact Hidle. }
+    assert (Hc2 : c_chores (con s2) = false).
+    { unfold add_len in Ea. inv Ea. exact Hch. }
+    pose proof (exec_task_frame s2 q (c_held (con s)) Hi2 Hc2) as R. cbn zeta in R.
+    destruct (exec_task s2 q (c_held (con s))) as [s3 o3] eqn:Ex. inv H. cbn [fst] in R.
+    destruct R as (L0 & A & C & D & E & F & G & I & J1 & J2 & K).
+    rewrite C in So. rewrite D in Sf.
+    destruct (sane_add_len _ _ _ _ _ Ea So) as (So0 & Ev & Esh & Etr & Econ & Eenv & Ef).
+    splits.
+    + split; [exact So0|rewrite <- Ef; exact Sf].
+    + unfold cnt_ok. rewrite A, Esh. destruct q; exact Hc.
+    + exact L0.
+    + src Epc.
+      rewrite (n_p1_trigs s s2 QU Etr) in E. rewrite (n_p1_trigs s s2 QL Etr) in F.
+      rewrite (n_p2_trigs s s2 Etr) in G. rewrite (n_p3_trigs s s2 Etr) in I.
+      destruct q.
+      * eapply astep_eq; [apply A_decU|].
+        unfold view; apply mkA_eq; rewrite ?A, ?E, ?F, ?G, ?I, ?J1, ?J2, ?K, ?Esh; cbn; first [lia | reflexivity].
+      * eapply astep_eq; [apply A_decL|].
+        unfold view; apply mkA_eq; rewrite ?A, ?E, ?F, ?G, ?I, ?J1, ?J2, ?K, ?Esh; cbn; first [lia | reflexivity].
+  - (* CStore *)
+    inv H. splits; [split; assumption|exact Hc|apply loop_ok_intro; [exact Hidle|exact Hch]|].
+    src Epc. eapply astep_eq; [apply A_store|]. tgt.
+  - (* CChkL *)
+    inv H. splits; [split; assumption|exact Hc|apply loop_ok_intro; [exact Hidle|exact Hch]|].
+    src Epc. eapply astep_eq; [apply A_chkL|].
+    unfold view; apply mkA_eq; vnormc; try reflexivity; destruct (lenL (w_sh s) =? 0); reflexivity.
+  - (* CChkU *)
+    inv H. splits; [split; assumption|exact Hc|apply loop_ok_intro; [exact Hidle|exact Hch]|].
+    src Epc. eapply astep_eq; [apply A_chkU|].
+    unfold view; apply mkA_eq; vnormc; try reflexivity; destruct (lenU (w_sh s) =? 0); reflexivity.
+  - (* CCas *)
+    destruct (flag (w_sh s) =? 0) eqn:Ef; inv H.
+    + splits; [split; assumption|exact Hc|apply loop_ok_intro; [exact Hidle|exact Hch]|].
+      src Epc. assert (F0 : flag (w_sh s) = 0) by lia. rewrite F0.
+      eapply astep_eq; [apply A_ccaswin|]. tgt.
+    + splits; [split; assumption|exact Hc|apply loop_ok_intro; [exact Hidle|exact Hch]|].
+      src Epc. eapply astep_eq; [apply A_ccaslose; lia|]. tgt.
+  - (* CWr *)
+    destruct (efd_write (w_sh s)) as [x1 r] eqn:Ew.
+    destruct (efd_write_res (w_sh s)) as [R|[R R']]; rewrite Ew in *; cbn [fst snd] in *; subst r.
+    + inv H. destruct (eff_edge_write _ _ Ew Hc) as (E1 & E2 & E3 & E4 & E5 & E6 & E7).
+      splits; [split; assumption|exact E7|apply loop_ok_intro; [exact Hidle|exact Hch]|].
+      src Epc. eapply astep_eq; [apply A_cwrite|].
+      unfold view; apply mkA_eq; vnormc; rewrite ?E1, ?E2, ?E3, ?E4, ?E5, ?E6; reflexivity.
+    + inv H. splits; [split; assumption|exact Hc|apply loop_ok_intro; [exact Hidle|exact Hch]|].
+      src Epc. eapply astep_eq; [apply A_nop|]. tgt.
+  - (* CWr, fault: excluded *)
+    inv H. sane_simpl Sf. cbn in Sf. discriminate.
+  - (* CRd *)
+    destruct (efd_read (w_sh s)) as [x1 v] eqn:Er. inv H.
+    destruct (efd_read_frame _ _ _ Er) as (E2 & E3 & E4 & E5 & E6 & E1 & E7).
+    splits; [split; assumption|exact (E7 Hc)|apply loop_ok_intro; [exact Hidle|exact Hch]|].
+    src Epc. eapply astep_eq; [eapply (A_drop _ _ (eff_edge x1)); [right; reflexivity|exact E1]|].
+    unfold view; apply mkA_eq; vnormc; rewrite ?E2, ?E3, ?E4, ?E5, ?E6; reflexivity.
 Qed.
